@@ -1,0 +1,77 @@
+//! Verification hooks.  Compiled only with `--cfg resolved_verif`; inert unless armed.
+//!
+//! - a virtual clock for the cache (`Instant::now()` replacement)
+//! - a mock transport for upstream queries
+
+use std::net::SocketAddr;
+use std::sync::atomic::{AtomicBool, AtomicU64, Ordering};
+use std::sync::{Mutex, OnceLock};
+use std::time::Duration;
+
+static CLOCK_ARMED: AtomicBool = AtomicBool::new(false);
+static CLOCK_NANOS: AtomicU64 = AtomicU64::new(0);
+static CLOCK_BASE: OnceLock<std::time::Instant> = OnceLock::new();
+
+fn base() -> std::time::Instant {
+    *CLOCK_BASE.get_or_init(std::time::Instant::now)
+}
+
+/// Stand-in for `std::time::Instant` whose `now()` is the virtual clock when armed.
+pub struct Instant;
+
+impl Instant {
+    pub fn now() -> std::time::Instant {
+        if CLOCK_ARMED.load(Ordering::SeqCst) {
+            base() + Duration::from_nanos(CLOCK_NANOS.load(Ordering::SeqCst))
+        } else {
+            std::time::Instant::now()
+        }
+    }
+}
+
+/// Arm the virtual clock and set it to `nanos` after its base.
+pub fn set_clock_nanos(nanos: u64) {
+    base();
+    CLOCK_NANOS.store(nanos, Ordering::SeqCst);
+    CLOCK_ARMED.store(true, Ordering::SeqCst);
+}
+
+pub fn disarm_clock() {
+    CLOCK_ARMED.store(false, Ordering::SeqCst);
+}
+
+/// Nanoseconds of `instant` after the virtual clock's base (saturating at 0).
+pub fn instant_nanos(instant: std::time::Instant) -> u128 {
+    instant.saturating_duration_since(base()).as_nanos()
+}
+
+/// What the mock transport does with one upstream request.
+pub struct MockReply {
+    /// how long the "network" takes (slept on the tokio clock)
+    pub delay: Duration,
+    /// raw reply bytes (they go through the real decoder), or `None` for no reply
+    pub reply: Option<Vec<u8>>,
+}
+
+pub type Transport = Box<dyn FnMut(SocketAddr, bool, &[u8]) -> MockReply + Send>;
+
+static TRANSPORT: Mutex<Option<Transport>> = Mutex::new(None);
+
+pub fn set_transport(transport: Option<Transport>) {
+    *TRANSPORT.lock().unwrap() = transport;
+}
+
+/// `None`: no mock registered, use the network.  `Some(x)`: the mock's answer.
+pub async fn transport(address: SocketAddr, is_tcp: bool, request: &[u8]) -> Option<Option<Vec<u8>>> {
+    let reply = {
+        let mut guard = TRANSPORT.lock().unwrap();
+        match guard.as_mut() {
+            Some(f) => f(address, is_tcp, request),
+            None => return None,
+        }
+    };
+    if !reply.delay.is_zero() {
+        tokio::time::sleep(reply.delay).await;
+    }
+    Some(reply.reply)
+}
